@@ -65,6 +65,9 @@ def gen_unit(rng):
             sc = sc.push(ek)
         if mode == "macro":
             sc = sc.macro_body()
+            if rng.random() < 0.4:
+                sc = sc.with_var("lv", "num")       # bound differently at each place of use (see run_unit)
+                u["late_var"] = True
         e = g.gen(kind, sc)
         if u["pre"]:
             from .c12 import uses_parent
@@ -223,6 +226,21 @@ def run_unit(ctx, unit):
             return
         if want:
             st.see("nontrivial", ("split", e))
+    elif mode == "macro" and unit.get("late_var"):
+        # the expression reads :lv, bound to another value at each place of use; as a --set macro it must follow the binding
+        inline = ["--select=(set \"lv\" 1 %s)=a" % e, "--select=(set \"lv\" 2 %s)=b" % e, "--select=(set \"lv\" [3] %s)=c" % e]
+        viamacro = ["--set", "@mm=" + e, "--select=(set \"lv\" 1 @mm)=a", "--select=(set \"lv\" 2 @mm)=b", "--select=(set \"lv\" [3] @mm)=c"]
+        obs = run([core.Case(pre + inline, data), core.Case(pre + viamacro, data)])
+        if obs is None:
+            return
+        st.count("conclusive")
+        if obs[0].stdout != obs[1].stdout:
+            bad("macro-vs-select-late-binding", "the expression evaluates differently as a --set macro when a variable it reads is bound at the place of use",
+                {"expr": e, "inline": obs[0].stdout[:500], "macro": obs[1].stdout[:500]})
+            return
+        if b'"a"' in obs[0].stdout:
+            st.see("nontrivial", ("macro-late", e))
+        st.count("late_binding_macro_comparisons")
     elif mode == "macro":
         obs = run([core.Case(pre + ["--select=" + e + "=c"], data), core.Case(pre + ["--set", "@mm=" + e, "--select", "@mm=c"], data),
                    core.Case(pre + ["--select", "(define \"mm\" %s @mm)=c" % e], data),
